@@ -294,6 +294,8 @@ class Interp(object):
             elem, nonempty = ('tuple', [('str', Tmpl(S.domain('tag_name'))), ('obj', 'any')]), False
         elif it[0] == 'colkeys':
             elem, nonempty = ('str', Tmpl(S.domain('tag_name'))), True
+        elif it[0] == 'colitems':
+            elem, nonempty = ('tuple', [('str', Tmpl(S.domain('tag_name'))), ('colmeta',)]), True
         elif it[0] == 'rows':
             elem, nonempty = ('row',), False
         elif it[0] == 'metaitems':
